@@ -194,8 +194,17 @@ class Aggregates(tea_tasting.utils.ReprMixin):  # noqa: D101
         return Aggregates(
             count_=self.count() + other.count() if self.count_ is not None else None,
             mean_={col: _add_mean(self, other, col) for col in self.mean_},
-            var_={col: _add_var(self, other, col) for col in self.var_},
-            cov_={cols: _add_cov(self, other, cols) for cols in self.cov_},
+            # Pooling a variance or covariance needs the means of its columns.
+            var_={
+                col: _add_var(self, other, col)
+                for col in self.var_
+                if col in self.mean_
+            },
+            cov_={
+                cols: _add_cov(self, other, cols)
+                for cols in self.cov_
+                if cols[0] in self.mean_ and cols[1] in self.mean_
+            },
         )
 
 
